@@ -814,7 +814,7 @@ ENTRIES = {
     "all_chars": ("C15 C03 C12 C11", all_chars, [()], 0, {}),
     # rare values rather than sizes
     "prefix_keys": ("C12 C19 C10 C13 C07", prefix_keys, [()], 0, {"err": True}),
-    "special_bytes": ("C15 C11 C03 C12 C10", special_bytes, [()], 0, {}),
+    "special_bytes": ("C15 C11 C03 C12 C10 C19", special_bytes, [()], 0, {}),
     "repeated_values": ("C05 C10 C06 C12 C13 C11", repeated_values, [()], 0, {}),
 }
 FAR = [0, 1, 254, 255, 256, 257, 300, 65534, 65535, 65536, 65537, 70000]
@@ -855,7 +855,7 @@ def descs_for(prop, tier):
                         if not (kind.startswith("interp_slot") and position.startswith(("slot", "obj_name_slot"))):
                             out.append(("scale", name, 0, ("fail:" + kind, position), prop))
             continue
-        if prop not in ("C01", "C02") and prop not in props.split():
+        if prop not in ("C01", "C02", "C17") and prop not in props.split():       # C17: "a successful script writes nothing to stderr", a failing one exactly one diagnostic: every entry
             continue
         sizes = list(sizes_for(name, tier))
         if mx > 1:
